@@ -510,10 +510,10 @@ End HandlesReuse.
 (* ====================================================================================================== *)
 (* the refutation of the full statement (path type N)                                                      *)
 (* ====================================================================================================== *)
-Definition C06_statement : Prop := C06_statement_gen N.eqb.
+Definition C06_statement_N : Prop := C06_statement_gen N.eqb.
 
 (* limit 1: Alloc 10 -> id 1; Alloc 11 -> id 2, evicts 1 (free = [1]); Alloc 12 -> reuses id 1 *)
-Lemma C06_refuted_lemma : ~ C06_statement.
+Lemma C06_refuted_lemma : ~ C06_statement_N.
 Proof.
   intros H. specialize (H 1%Z [] 10 [Alloc 11; Alloc 12] 12).
   assert (E : 12 = 10) by (apply H; vm_compute; reflexivity). discriminate E.
